@@ -20,6 +20,13 @@ func (c *trCtx) dropped(call *ast.CallExpr) bool {
 	if c.effectOf(call) != nil {
 		return false
 	}
+	// a modelled effect inside the ARGUMENTS of an ignored call (`util.LogError(self.metadata.remove(Lock), …)`)
+	// must not disappear with it: such a call is not ignorable (→ extraction error where it stands)
+	for _, a := range call.Args {
+		if c.hasEffect(a) {
+			return false
+		}
+	}
 	if isLogCall(c.fset, call) {
 		return true
 	}
@@ -136,6 +143,10 @@ func (c *trCtx) stmts(list []ast.Stmt, k trCont) (string, error) {
 	}
 	rest := func() (string, error) { return c.stmts(list[1:], k) }
 	if c.droppedStmt(list[0]) {
+		// a `dropStmts` entry drops the whole statement, body included: refused when a modelled effect is inside
+		if c.hasEffect(list[0]) {
+			return "", trErr("the ignored statement `%s` contains a modelled effect", firstLineOf(exprText(c.fset, list[0])))
+		}
 		return rest()
 	}
 	switch x := list[0].(type) {
